@@ -16,8 +16,8 @@ RULE = ('per-file packages with 2-9 wavelengths, 1-3 apertures, 1-5 models (perm
         'unbounded window included) - exhaustive for n_wav <= 4 (quick) / <= 6 (thorough), sampled to 9; cube packages fitted at requested wavelengths on, between and '
         'beyond tabulated ones. evaluations = runs of convolve_model_dir_monochromatic + wavelength requests; non-trivial = chunk size < number of wavelengths in the window.')
 EXHAUSTIVE = {'quick': True, 'thorough': True}
-ASSUMPTIONS = ['either reading of "inside the window" at its ends is accepted (the code includes wav_min and excludes wav_max)',
-               'empty windows are outside the quantifier; requested wavelengths equidistant from two tabulated ones are not compared']
+ASSUMPTIONS = ['either reading of "inside the window" at its ends is accepted (the code includes wav_min and excludes wav_max); a window that holds a wavelength only at its upper end must still be processed without error',
+               'windows that are empty even as closed intervals are outside the quantifier; requested wavelengths equidistant from two tabulated ones are not compared']
 
 
 def _pkg(rng, nw):
@@ -39,7 +39,7 @@ def _windows(wav):
     out = [None]
     for i, a in enumerate(cands):
         for b in cands[i:]:
-            if any(a <= w < b for w in wav):
+            if any(a <= w <= b for w in wav):       # non-empty as a closed window (incl. [w, w] and windows that only reach a wavelength at their upper end)
                 out.append([a, b])
     return out
 
@@ -155,6 +155,14 @@ def judge(case, im, mo):
         lo, hi, emitted = m
         what = 'chunk %d window %r' % (chunk, win)
         if hi < lo:
+            # the window holds a wavelength only at its upper end, which the code excludes: no file is required, but the call has to return
+            if 'exc' in r:
+                fail.append('raised: %s (a window whose only tabulated wavelength is its upper end): %s' % (what, r['exc']))
+            elif r['files']:
+                a, b = win
+                got = sorted(int(f[2:]) - 1 for f in r['files'])
+                if not set(got) <= set(j for j in range(nw) if a <= dwav[j] <= b):
+                    fail.append('files: %s: files written for wavelength indices %r outside the window' % (what, got))
             continue
         if chunk < hi - lo + 1:
             nontrivial = True
